@@ -345,6 +345,56 @@ fn cfg_from(a: &[String]) -> Cfg {
     Cfg { len: a[0].parse().unwrap(), bufreader: a[1].parse().ok(), sched: Sched::from_args(&a[2..]) }
 }
 
+/// C14: a source that claims to have delivered more bytes than the slice it was given (its `lie_at`-th call returns the slice
+/// length + `extra`). Whatever the reader does with that call (the real code panics in a load-bearing assert), afterwards it must
+/// still expose only bytes the source actually wrote.
+struct Liar {
+    data: Vec<u8>,
+    pos: usize,
+    calls: usize,
+    lie_at: usize,
+    extra: usize,
+    step: usize,
+    copied: std::rc::Rc<std::cell::Cell<usize>>,
+}
+impl std::io::Read for Liar {
+    fn read(&mut self, buf: &mut [u8]) -> std::io::Result<usize> {
+        self.calls += 1;
+        let n = buf.len().min(self.step).min(self.data.len() - self.pos);
+        buf[..n].copy_from_slice(&self.data[self.pos..self.pos + n]);
+        self.pos += n;
+        self.copied.set(self.pos);
+        if self.calls == self.lie_at {
+            return Ok(buf.len() + self.extra);
+        }
+        Ok(n)
+    }
+}
+fn liar_case(first_chunk: usize, adv: usize, second_chunk: usize, extra: usize, step: usize) -> Option<(String, String)> {
+    set_case("C14 the reader operation terminates", &format!("lying source: chunk {} then {}, advance {}, {} bytes more than the slice", first_chunk, second_chunk, adv, extra), &["liar".to_string(), first_chunk.to_string(), adv.to_string(), second_chunk.to_string(), extra.to_string(), step.to_string()]);
+    let d = data(200);
+    let copied = std::rc::Rc::new(std::cell::Cell::new(0usize));
+    let mut reader = DeferredReader::from_read(Liar { data: d.clone(), pos: 0, calls: 0, lie_at: 2, extra, step, copied: copied.clone() });
+    reader.set_chunk_size(first_chunk);
+    reader.request_more();
+    let adv = adv.min(reader.buf_len());
+    reader.advance(adv);
+    reader.set_chunk_size(second_chunk);
+    let r = catch_unwind(AssertUnwindSafe(|| reader.request_more()));
+    let what = format!("source of 200 bytes: chunk size {}, request_more, advance({}), chunk size {}, then a read() that returns {} more than the length of its slice: request_more() {}", first_chunk, adv, second_chunk, extra, if r.is_ok() { "returned" } else { "panicked" });
+    let b = reader.buf().to_vec();
+    if reader.buf_len() != b.len() {
+        return Some(("C14 the exposed slice has the buffered length".into(), format!("{}; buf_len() = {}, buf().len() = {}", what, reader.buf_len(), b.len())));
+    }
+    if adv + b.len() > copied.get() || b[..] != d[adv..adv + b.len()] {
+        return Some(("C14 only bytes that were read from the source are exposed".into(), format!("{}; afterwards {} bytes are exposed at position {}, the source wrote {} bytes in total; exposed {:?}", what, b.len(), adv, copied.get(), &b[..b.len().min(24)])));
+    }
+    if reader.position() != adv {
+        return Some(("C14 only bytes that were read from the source are exposed".into(), format!("{}; position() = {} afterwards, {} bytes were advanced over", what, reader.position(), adv)));
+    }
+    None
+}
+
 /// C10: streaming with a fixed request size keeps the memory of the reader below a bound in chunk size and request size
 fn memory_case(chunk: usize, req: usize, step: usize, total: usize, move_mark: bool) -> (usize, usize) {
     let d: Vec<u8> = vec![b'x'; total];
@@ -423,6 +473,23 @@ pub fn suite(prop: &str, tier: &str, seed: u64) -> Report {
         rep.inputs = rep.runs;
         rep.nontrivial = rep.runs;
     }
+    if all || prop == "C14" || prop == "C02" {
+        for &first in &[4usize, 16, 64] {
+            for &adv in &[0usize, 3, 16] {
+                for &second in &[1usize, 4, 64] {
+                    for &extra in &[1usize, 5, 40, 100000] {
+                        for &step in &[3usize, 1000] {
+                            rep.runs += 1;
+                            rep.inputs += 1;
+                            if let Some((check, detail)) = liar_case(first, adv, second, extra, step) {
+                                rep.fail(&check, format!("lying source, chunk {} then {}, advance {}, {} bytes too many", first, second, adv, extra), vec!["liar".into(), first.to_string(), adv.to_string(), second.to_string(), extra.to_string(), step.to_string()], detail);
+                            }
+                        }
+                    }
+                }
+            }
+        }
+    }
     if all || prop == "C10" {
         for &(chunk, req, step) in &[(16usize, 8usize, 16usize), (64, 100, 7), (4096, 1, 4096), (16384, 300, 100), (1, 1, 1)] {
             for &move_mark in &[true, false] {
@@ -445,7 +512,7 @@ pub fn suite(prop: &str, tier: &str, seed: u64) -> Report {
         }
     }
     rep.bound = format!(
-        "reader: every sequence of up to {} operations out of {} (sequences of 5: out of the first 17; request 0/1/2/3/5/9, request_byte_at_offset 0/1/4 (offset 0 also through request_byte), advance 1/2/3/12, advance_with_buf(all), advance beyond the data (caught panic), set_mark / set_mark_to_position, request_more, check_io_error, set_chunk_size 64/1; buf_ptr compared with buf after every operation; any other panic is a failure) on a 24-byte source under {} configurations (chunk 1/2/4, reads of 1/3/all bytes, no fault / fault at 7 / fault at 0, transient Interrupted, built by from_read / from_boxed_dyn_read / from a pre-filled BufReader of capacity 1/5/64 / from an unused BufReader over a source that delivers, ends or fails at once, empty source), plus seeded sequences of 8..48 operations on a 200-byte source; C10: 1 MiB streamed with 5 chunk/request combinations",
+        "reader: every sequence of up to {} operations out of {} (sequences of 5: out of the first 17; request 0/1/2/3/5/9, request_byte_at_offset 0/1/4 (offset 0 also through request_byte), advance 1/2/3/12, advance_with_buf(all), advance beyond the data (caught panic), set_mark / set_mark_to_position, request_more, check_io_error, set_chunk_size 64/1; buf_ptr compared with buf after every operation; any other panic is a failure) on a 24-byte source under {} configurations (chunk 1/2/4, reads of 1/3/all bytes, no fault / fault at 7 / fault at 0, transient Interrupted, built by from_read / from_boxed_dyn_read / from a pre-filled BufReader of capacity 1/5/64 / from an unused BufReader over a source that delivers, ends or fails at once, empty source), plus seeded sequences of 8..48 operations on a 200-byte source; C14: a source whose second read() claims 1/5/40/100000 bytes more than its slice holds, after chunk sizes 4/16/64 then 1/4/64 and an advance of 0/3/16; C10: 1 MiB streamed with 5 chunk/request combinations",
         n,
         OPS.len(),
         cfgs.len()
@@ -453,6 +520,16 @@ pub fn suite(prop: &str, tier: &str, seed: u64) -> Report {
     rep
 }
 pub fn replay(prop: &str, args: &[String]) -> i32 {
+    if args[0] == "liar" {
+        let v: Vec<usize> = args[1..].iter().map(|x| x.parse().unwrap()).collect();
+        return match liar_case(v[0], v[1], v[2], v[3], v[4]) {
+            Some((c, d)) => {
+                println!("FAILS {}: {}", c, d);
+                1
+            }
+            None => 0,
+        };
+    }
     if args[0] == "mem" {
         let v: Vec<usize> = args[1..].iter().map(|x| x.parse().unwrap()).collect();
         let (peak, bound) = memory_case(v[0], v[1], v[2], v[3], v[4] != 0);
